@@ -6,7 +6,7 @@ use proptest::prelude::*;
 use serde::{Deserialize, Serialize};
 use serde_json::json;
 
-const RULE: &str = "cases = (type, input string); whole-string oracle = str::parse::<T> with a leading '+' rejected (bool: str::parse::<bool>); prefix oracle = reference scanner (optional '-' for signed types, longest ASCII-digit run, std parse of that run, overflow or no digit => Err with nothing consumed: error offset == parser start offset, direction FromStart; Ok => remainder == input after the run, offsets advanced by the run length), parser started with Parser::new and with_start_offset(_, 7); non-trivial = value within 2 of MIN/MAX or out of range, a sign/zero edge (-0, -, --1, +1, leading zeros), a non-ASCII digit, or a non-empty suffix after a number; distinct by (type,string)";
+const RULE: &str = "cases = (type, input string); whole-string oracle = str::parse::<T> with a leading '+' rejected (bool: str::parse::<bool>); parse_with!(parser, T) must equal Parser::parse_T in value, remainder, offsets and error; prefix oracle = reference scanner (optional '-' for signed types, longest ASCII-digit run, std parse of that run, overflow or no digit => Err with nothing consumed: error offset == parser start offset, direction FromStart; Ok => remainder == input after the run, offsets advanced by the run length), parser started with Parser::new and with_start_offset(_, 7); non-trivial = value within 2 of MIN/MAX or out of range, a sign/zero edge (-0, -, --1, +1, leading zeros), a non-ASCII digit, or a non-empty suffix after a number; distinct by (type,string)";
 
 #[derive(Serialize, Deserialize, Debug, Clone, Copy, Hash, PartialEq, Eq)]
 enum Ty {
@@ -56,6 +56,7 @@ fn check_int<T>(
     signed: bool,
     whole: fn(&str) -> Result<T, kp::ParseIntError>,
     prefix: for<'a> fn(Parser<'a>) -> ParseValueResult<'a, T>,
+    with: for<'a> fn(Parser<'a>) -> ParseValueResult<'a, T>,
 ) -> Result<(), String>
 where
     T: std::str::FromStr + PartialEq + std::fmt::Debug + Copy,
@@ -69,6 +70,13 @@ where
     let want: Option<T> = if has_digit { s[..run].parse::<T>().ok() } else { None };
     for base in [0usize, 7] {
         let p = if base == 0 { Parser::new(s) } else { Parser::with_start_offset(s, base) };
+        // parse_with!(parser, T) is the type-directed spelling of the same method
+        let same = match (prefix(p), with(p)) {
+            (Ok((v, n)), Ok((v2, n2))) => v == v2 && n.remainder().as_ptr() == n2.remainder().as_ptr() && n.remainder().len() == n2.remainder().len() && n.start_offset() == n2.start_offset() && n.parse_direction() == n2.parse_direction(),
+            (Err(e), Err(e2)) => e == e2,
+            _ => false,
+        };
+        ensure!(same, "parse_with!(parser, {name}) on {s:?} (base {base}) differs from Parser::parse_{name}: {:?} vs {:?}", with(p).map(|(v, n)| (v, n.remainder().to_string())).map_err(|e| e.to_string()), prefix(p).map(|(v, n)| (v, n.remainder().to_string())).map_err(|e| e.to_string()));
         match (prefix(p), want) {
             (Ok((v, np)), Some(w)) => {
                 ensure!(v == w, "Parser::parse_{name} on {s:?}: konst {v:?} expected {w:?}");
@@ -106,6 +114,8 @@ fn check_bool(s: &str) -> Result<(), String> {
     let want = s.parse::<bool>().ok();
     let got = kp::parse_bool(s).ok();
     ensure!(got == want, "primitive::parse_bool({s:?}): konst {got:?} std {want:?}");
+    let (a, b) = (Parser::new(s).parse_bool(), konst::parse_with!(Parser::new(s), bool));
+    ensure!(a.as_ref().map(|(v, n)| (*v, n.remainder(), n.start_offset())).map_err(|e| e.copy()) == b.as_ref().map(|(v, n)| (*v, n.remainder(), n.start_offset())).map_err(|e| e.copy()), "parse_with!(parser, bool) on {s:?} differs from Parser::parse_bool");
     let want = if s.starts_with("true") {
         Some((true, 4))
     } else if s.starts_with("false") {
@@ -132,18 +142,18 @@ fn check_bool(s: &str) -> Result<(), String> {
 pub fn run_case(c: &Case) -> Result<(), String> {
     let s = c.s.as_str();
     match c.ty {
-        Ty::U8 => check_int::<u8>("u8", s, false, kp::parse_u8, |p| p.parse_u8()),
-        Ty::I8 => check_int::<i8>("i8", s, true, kp::parse_i8, |p| p.parse_i8()),
-        Ty::U16 => check_int::<u16>("u16", s, false, kp::parse_u16, |p| p.parse_u16()),
-        Ty::I16 => check_int::<i16>("i16", s, true, kp::parse_i16, |p| p.parse_i16()),
-        Ty::U32 => check_int::<u32>("u32", s, false, kp::parse_u32, |p| p.parse_u32()),
-        Ty::I32 => check_int::<i32>("i32", s, true, kp::parse_i32, |p| p.parse_i32()),
-        Ty::U64 => check_int::<u64>("u64", s, false, kp::parse_u64, |p| p.parse_u64()),
-        Ty::I64 => check_int::<i64>("i64", s, true, kp::parse_i64, |p| p.parse_i64()),
-        Ty::U128 => check_int::<u128>("u128", s, false, kp::parse_u128, |p| p.parse_u128()),
-        Ty::I128 => check_int::<i128>("i128", s, true, kp::parse_i128, |p| p.parse_i128()),
-        Ty::Usize => check_int::<usize>("usize", s, false, kp::parse_usize, |p| p.parse_usize()),
-        Ty::Isize => check_int::<isize>("isize", s, true, kp::parse_isize, |p| p.parse_isize()),
+        Ty::U8 => check_int::<u8>("u8", s, false, kp::parse_u8, |p| p.parse_u8(), |p| konst::parse_with!(p, u8)),
+        Ty::I8 => check_int::<i8>("i8", s, true, kp::parse_i8, |p| p.parse_i8(), |p| konst::parse_with!(p, i8)),
+        Ty::U16 => check_int::<u16>("u16", s, false, kp::parse_u16, |p| p.parse_u16(), |p| konst::parse_with!(p, u16)),
+        Ty::I16 => check_int::<i16>("i16", s, true, kp::parse_i16, |p| p.parse_i16(), |p| konst::parse_with!(p, i16)),
+        Ty::U32 => check_int::<u32>("u32", s, false, kp::parse_u32, |p| p.parse_u32(), |p| konst::parse_with!(p, u32)),
+        Ty::I32 => check_int::<i32>("i32", s, true, kp::parse_i32, |p| p.parse_i32(), |p| konst::parse_with!(p, i32)),
+        Ty::U64 => check_int::<u64>("u64", s, false, kp::parse_u64, |p| p.parse_u64(), |p| konst::parse_with!(p, u64)),
+        Ty::I64 => check_int::<i64>("i64", s, true, kp::parse_i64, |p| p.parse_i64(), |p| konst::parse_with!(p, i64)),
+        Ty::U128 => check_int::<u128>("u128", s, false, kp::parse_u128, |p| p.parse_u128(), |p| konst::parse_with!(p, u128)),
+        Ty::I128 => check_int::<i128>("i128", s, true, kp::parse_i128, |p| p.parse_i128(), |p| konst::parse_with!(p, i128)),
+        Ty::Usize => check_int::<usize>("usize", s, false, kp::parse_usize, |p| p.parse_usize(), |p| konst::parse_with!(p, usize)),
+        Ty::Isize => check_int::<isize>("isize", s, true, kp::parse_isize, |p| p.parse_isize(), |p| konst::parse_with!(p, isize)),
         Ty::Bool => check_bool(s),
     }
 }
